@@ -218,11 +218,12 @@ func document(c Case, issueInstant time.Time) (doc []byte, genuineSigned bool, e
 			el.AddChild(sig.Copy())
 		}
 		genuineSigned = false // two Signature children: not a well-formed signed message
-	case "resign-attacker":
+	case "resign-attacker", "resign-attacker-chain", "resign-attacker-chain-rev", "resign-attacker-own-cert":
 		if sig != nil {
 			el.RemoveChild(sig)
 		}
-		if _, err := forge.Sign(el, &forge.SignSpec{Key: "attacker", KeyInfo: "cert:idp"}, false); err != nil {
+		ki := map[string]string{"resign-attacker": "cert:idp", "resign-attacker-chain": "chain:attacker,idp", "resign-attacker-chain-rev": "chain:idp,attacker", "resign-attacker-own-cert": ""}[c.Transform]
+		if _, err := forge.Sign(el, &forge.SignSpec{Key: "attacker", KeyInfo: ki}, false); err != nil {
 			return nil, false, err
 		}
 		genuineSigned = false
@@ -342,7 +343,7 @@ func check(c Case) pbt.Result {
 
 // ---------------------------------------------------------------- generators
 
-var transforms = []string{"none", "none", "none", "sig-into-status", "sig-into-extensions", "wrapped", "edit-dest", "edit-issuer", "edit-status", "edit-instant", "resign-attacker", "strip-sig", "dup-sig"}
+var transforms = []string{"none", "none", "none", "sig-into-status", "sig-into-extensions", "wrapped", "edit-dest", "edit-issuer", "edit-status", "edit-instant", "resign-attacker", "resign-attacker-chain", "resign-attacker-chain-rev", "resign-attacker-own-cert", "strip-sig", "dup-sig"}
 var roots = []string{"logout", "logout", "logout", "logout", "logout", "logout", "logout", "logout", "response", "assertion", "norootcomment", "empty", "text", "notxml", "badb64", "baddeflate", "soap", "bomb"}
 
 func genField(t *rapid.T, label string) Field {
@@ -424,7 +425,7 @@ func enumSingleFault(_ string, emit func(Case)) {
 var prop = &pbt.Prop[Case]{
 	ID: "C18",
 	Rule: "cases: LogoutResponse documents built by the harness and presented through ValidateLogoutResponseForm / Redirect / Request(GET, POST): signer in {trusted, second trusted, encryption-only IdP key, untrusted, nobody} x trust configuration x transformation after signing " +
-		"(signature moved into Status / Extensions, wrapped in an evil root with the signature copied, one field edited after signing, re-signed by the untrusted key with the trusted certificate in KeyInfo, stripped, duplicated) x Destination, Issuer in {correct, wrong, near-miss, empty, absent} x Status x IssueInstant age {0, 1/2, 3/2, 10} x MaxIssueDelay(1 h) and future-dated, " +
+		"(signature moved into Status / Extensions, wrapped in an evil root with the signature copied, one field edited after signing, re-signed by the untrusted key with the trusted certificate in KeyInfo (alone, or in a two-certificate chain in either order), stripped, duplicated) x Destination, Issuer in {correct, wrong, near-miss, empty, absent} x Status x IssueInstant age {0, 1/2, 3/2, 10} x MaxIssueDelay(1 h) and future-dated, " +
 		"plus malformed framings (rootless, empty, text, truncated XML, bad base64, bad deflate, 11 MiB deflate bomb, SOAP envelope, a genuinely signed Response or Assertion presented as a logout response). " +
 		"exhaustive single-fault grid over every entry point and trust configuration plus rapid full combinations. oracle: nil error iff untouched trusted enveloped signature on the root, Destination = SLO URL, Issuer = IdP entity ID, fresh, Success; never a panic. " +
 		"non-trivial: the document carries a signature that verifies under some key and differs from the accepted baseline, or is malformed. distinct: sha256 of the JSON case.",
